@@ -421,6 +421,26 @@ func c11Gen(r *Rng, tier string, emit func(string)) {
 		emit("Precision " + strconv.Itoa(p) + " 18446744073709551615")
 	}
 	emit("Precision 255 1000000")
+	// total input hours in the top few values of uint64 (where a ceiling division written as
+	// (h+bf-1)/bf would wrap), with the fee right at / below the required amount
+	for _, bf := range []uint64{2, 3, 10, 100} {
+		for k := uint64(0); k <= bf+1; k++ {
+			in := ^uint64(0) - k
+			req := in / bf
+			if in%bf != 0 {
+				req++
+			}
+			for _, fee := range []uint64{1, 2, req - 1, req, req + 1} {
+				if fee == 0 || fee > in {
+					continue
+				}
+				c := &softCase{maxSize: 32768, burn: bf, prec: 3, headTime: 1000, distN: 4, unlocked: 2, nsigs: 1,
+					ins:  []inSpec{{coins: 2000000, hours: in, time: 1000, addr: -1}},
+					outs: []outSpec{{coins: 2000000, hours: in - fee}}}
+				emit("Soft " + c.String())
+			}
+		}
+	}
 	n := 4000
 	if tier == "thorough" {
 		n = 300000
